@@ -98,11 +98,13 @@ def one_case(ctx, k):
             return
         R1 = stream(d, "ref1.fastq")
         R2 = stream(d, "ref2.fastq") if paired else None
+        ref_holder = [R1, R2]
         if R1[0] != "fastq":
             ctx.violation("reference-format", f"reference run wrote {R1[0]} to ref1.fastq", case)
             return
 
         def variant(label, argv, outs, expect_fmt="fastq", names_seqs_only=False, stdout_name=None):
+            R1, R2 = ref_holder
             """outs: list of (path, which_mate or 'interleaved')."""
             run = climon.run(d, argv, tag="v" + label.replace("/", "_").replace(" ", "_")[:40], trace=False)
             ctx.case((str(base), fq1[:200], label))
@@ -163,6 +165,22 @@ def one_case(ctx, k):
         # --- unknown extension: falls back to the input format
         argv = base + ["-o", "u1.out"] + (["-p", "u2.out"] if paired else []) + ins
         variant("name=.out", argv, [("u1.out", 1)] + ([("u2.out", 2)] if paired else []))
+        # --- several outputs whose names request different formats (or none): each output follows its own name
+        if not paired and "-m" not in base:
+            for ts, main, fmt_main in (("ts.fasta", "mx.out", "fastq"), ("ts.fa.gz", "mx.txt", "fastq"), ("ts.out", "mx.fasta", "fasta"),
+                                        ("ts.fastq", "mx.fa", "fasta")):
+                argv = base + ["-m", "12", "--too-short-output", ts, "-o", main] + ins
+                # reference for this variant: the same filter with plain names
+                refm = climon.run(d, base + ["-m", "12", "--too-short-output", "rts.fastq", "-o", "rmx.fastq"] + ins, tag="refm", trace=False)
+                if refm.rc != 0:
+                    break
+                save = list(ref_holder)
+                ref_holder[0] = stream(d, "rmx.fastq")
+                variant(f"mixed-names={ts}+{main}", argv, [(main, 1)], expect_fmt=R.output_format_from_name(main) or "fastq")
+                ref_holder[0] = stream(d, "rts.fastq")
+                variant(f"mixed-names-redirect={ts}+{main}", argv, [(ts, 1)],
+                        expect_fmt=R.output_format_from_name(ts) or "fastq")
+                ref_holder[:] = save
         # --- cores
         argv = base + ["-j", "2", "--buffer-size", "1500", "-o", "j1.fastq"] + (["-p", "j2.fastq"] if paired else []) + ins
         variant("cores=2", argv, [("j1.fastq", 1)] + ([("j2.fastq", 2)] if paired else []))
